@@ -53,6 +53,19 @@ Theorem C09_gc_exact :
 Proof. exact gc_exact_final. Qed.
 Print Assumptions C09_gc_exact.
 
+(* ... and the by-digest references after GC (the code as it is, kl = true): a descriptor is
+   resolvable by digest afterwards iff it carries a tag, or it was resolvable by digest
+   before and is live (swept content is never left listed; live content is never unlisted) *)
+Theorem C09_gc_digest_refs :
+  forall succ subject manifest, acyclic succ -> subject_listed succ subject ->
+  forall ords st, same_elements ords (candidates (idx st)) ->
+  let st' := fst (gc succ subject manifest cfg_fixed true ords st) in
+  forall d r, In (RDig d, r) (idx st') <->
+    d = r /\ ((exists t, In (RTag t, r) (idx st)) \/
+              ((exists d', In (RDig d', r) (idx st)) /\ Live succ subject manifest st r)).
+Proof. exact gc_digest_refs_final. Qed.
+Print Assumptions C09_gc_digest_refs.
+
 (* Before the repair (F13) one referrer pass made the result depend on the map order. *)
 Theorem C09_gc_order_refuted :
   let st := run_w cfg_fixed [OPush 0; OPush 1; OPush 5; OPush 6; OPush 7; OTag 1 0] in
